@@ -207,7 +207,8 @@ class DashApp:
 
     def add_fixture(self, name: str, with_subs: bool = True, directory: str | None = None,
                     title: str | None = None, only: set[str] | None = None,
-                    extra: list[tuple[Path, str]] | None = None, ref_stem: str | None = None) -> None:
+                    extra: list[tuple[Path, str]] | None = None, ref_stem: str | None = None,
+                    defaults: dict[str, Any] | None = None) -> None:
         """Same rows as FlaskTestBase.setup_media_fixture; files are copied to the blob folder.
         ref_stem: fixture stem of the file that becomes the stream's timing reference (default: the first video file)."""
         from dashlive.server import models
@@ -229,6 +230,8 @@ class DashApp:
                 title=title if title is not None else FIXTURES[name]['title'], directory=directory,
                 marlin_la_url=f"ms3://localhost/marlin/{name}",
                 playready_la_url=PlayReady.TEST_LA_URL)
+            if defaults:
+                stream.defaults = dict(defaults)        # per-stream option defaults (full option names)
             pattern = f"{name}_[avt]*.mp4" if with_subs else f"{name}_[av]*.mp4"
             stems = sorted(p.stem for p in src_dir.glob(pattern))
             if only is not None:
